@@ -469,3 +469,114 @@ Definition qcase_agrees (fs : list file) (c : qcase) : bool :=
   listN_eqb (sortN (query_unpruned (qc_w c) (qc_now c) fs)) (qc_unpruned c).
 
 Definition qcase_oracle (c : qcase) : bool := listN_eqb (qc_pruned c) (qc_unpruned c).
+
+(* ------------------------------------------------------------------------------------ *)
+(* remote storage (s3:// / azure://): filterExistingRemotePaths                           *)
+(* ------------------------------------------------------------------------------------ *)
+
+(* a generated path: the hour directory .../YYYY/MM/DD/HH or the day directory .../YYYY/MM/DD *)
+Inductive rpath := PHour (h : Z) | PDay (d : Z).
+
+Definition month_key (d : Z) : Z := let '(y, m, _) := civil_from_days d in y * 12 + (m - 1).
+
+(* outcome of the storage calls the filter makes; None = the call failed
+   - ld_day d    : ListDirectories(.../YYYY/MM/DD/)  -> hour numbers found under day d
+   - ld_month mk : ListDirectories(.../YYYY/MM/)     -> day numbers found under month mk
+   - lf_day d    : List(.../YYYY/MM/DD/)             -> are there *.parquet files directly in it *)
+Record remote := {
+  ld_day : Z -> option (list Z);
+  ld_month : Z -> option (list Z);
+  lf_day : Z -> option bool
+}.
+
+Definition memZ (x : Z) (l : list Z) : bool := existsb (Z.eqb x) l.
+
+(* "parent listing failed - assume directory exists", else the target must be among the children *)
+Definition dir_exists (rw : remote) (p : rpath) : bool :=
+  match p with
+  | PHour h => match ld_day rw (h / 24) with None => true | Some hs => memZ h hs end
+  | PDay d => match ld_month rw (month_key d) with None => true | Some ds => memZ d ds end
+  end.
+
+(* day-level paths are additionally checked for direct parquet files; when THAT call fails the
+   path is kept (since 4553183: same policy as a failed ListDirectories) *)
+Definition keep_remote (rw : remote) (p : rpath) : bool :=
+  dir_exists rw p &&
+  match p with
+  | PHour _ => true
+  | PDay d => match lf_day rw d with None => true | Some b => b end
+  end.
+
+Definition gen_paths (hs : list Z) : list rpath := map PHour hs ++ map PDay (days_of hs).
+
+Definition filter_remote (rw : remote) (ps : list rpath) : list rpath := filter (keep_remote rw) ps.
+
+(* OptimizeTablePath on remote storage: None = the unpruned glob *)
+Definition optimize_remote (w : wexpr) (now : Z) (rw : remote) : option (list rpath) :=
+  match pruned_hours w now with
+  | None => None
+  | Some hs => match filter_remote rw (gen_paths hs) with
+               | [] => None
+               | ps => Some ps
+               end
+  end.
+
+(* a remote world given by what is stored and which calls fail *)
+Record rworld := {
+  rw_hours : list Z;        (* hour directories that hold files *)
+  rw_days : list Z;         (* day directories that hold daily-compacted files directly *)
+  rw_fail_day : list Z;     (* days whose ListDirectories fails *)
+  rw_fail_month : list Z;   (* month keys whose ListDirectories fails *)
+  rw_fail_list : list Z     (* days whose List (direct files) fails *)
+}.
+
+Definition day_listed (x : rworld) (d : Z) : bool :=
+  memZ d (rw_days x) || existsb (fun h => h / 24 =? d) (rw_hours x).
+
+Definition remote_of (x : rworld) : remote :=
+  (* the month of every directory that exists, computed once *)
+  let keyed := map (fun d => (month_key d, d)) (rw_days x ++ map (fun h => h / 24) (rw_hours x)) in
+  let keyedh := map (fun h => (h / 24, h)) (rw_hours x) in
+  {| ld_day := fun d => if memZ d (rw_fail_day x) then None else Some (map snd (filter (fun kh => fst kh =? d) keyedh));
+     ld_month := fun mk => if memZ mk (rw_fail_month x) then None
+                           else Some (map snd (filter (fun kd => fst kd =? mk) keyed));
+     lf_day := fun d => if memZ d (rw_fail_list x) then None else Some (memZ d (rw_days x)) |}.
+
+Definition rpath_text (p : rpath) : bytes := match p with PHour h => hour_path h | PDay d => day_path d end.
+
+(* correspondence case: the real OptimizeTablePath on an s3:// path with a fake DirectoryLister *)
+Record rcase := {
+  rc_w : wexpr;
+  rc_now : Z;
+  rc_world : rworld;
+  rc_obs : option (list string)      (* kept directories in order of the result; None = not optimized *)
+}.
+
+Definition rcase_agrees (c : rcase) : bool :=
+  match optimize_remote (rc_w c) (rc_now c) (remote_of (rc_world c)), rc_obs c with
+  | None, None => true
+  | Some ps, Some obs => paths_eqb (map rpath_text ps) obs
+  | _, _ => false
+  end.
+
+(* property oracle on the implementation's answer: every generated path whose partition holds
+   files is still there (unless everything was dropped and the unpruned glob is used) *)
+Definition rpath_stored (x : rworld) (p : rpath) : bool :=
+  match p with PHour h => memZ h (rw_hours x) | PDay d => memZ d (rw_days x) end.
+
+Definition rcase_oracle (c : rcase) : bool :=
+  match pruned_hours (rc_w c) (rc_now c), rc_obs c with
+  | Some hs, Some obs =>
+      let obsb := map B obs in
+      forallb (fun p => let t := rpath_text p in existsb (bytes_eqb t) obsb)
+              (filter (rpath_stored (rc_world c)) (gen_paths hs))
+  | _, _ => true
+  end.
+
+(* a stored day file whose List call failed: the class of the finding fixed by 4553183 (kept as a
+   label for regression cases) *)
+Definition rcase_list_fault (c : rcase) : bool :=
+  match pruned_hours (rc_w c) (rc_now c) with
+  | Some hs => existsb (fun d => memZ d (rw_days (rc_world c)) && memZ d (rw_fail_list (rc_world c))) (days_of hs)
+  | None => false
+  end.
